@@ -10,7 +10,7 @@ CONSTANTS
   InitMs = 0
   InitRems = {0}
   NTerms = 1
-  KeepHist = TRUE
+  KeepHist = FALSE
   KF_TdposPreInit = FALSE
   KF_XpoaNegativeTs = FALSE
 CONSTRAINT Book
